@@ -44,6 +44,9 @@ Definition resolving (t : ty) : bool :=
   match t with
   | TI32 | TU32 | TUsize | TF32 | TBool | TName | TStr | TDict | TVec _ | TMap _ | TPair _ _ | TMaybeRef _ | TRcRef _ => true
   | TStruct i => match get_struct SC i with Some _ => true | None => false end
+  (* derived enums resolve before matching (generated constants: pdf_derive impl_object_for_enum, fix C18-c) *)
+  | TNameEnum i => name_enum_reader_resolves && match get_nenum SC i with Some _ => true | None => false end
+  | TIntEnum i => int_enum_reader_resolves && match get_ienum SC i with Some _ => true | None => false end
   | _ => false
   end.
 (* … and those that keep it unread *)
@@ -54,11 +57,15 @@ Lemma holder_dangling f chain t i g : resolving t = true -> dangling E i -> chai
 Proof.
   intros Ht Hd Hc. destruct (dangling_resolve _ _ Hd) as [e [He Hm]].
   destruct t; try discriminate Ht; cbn [read read_dict]; rewrite ?Hc, ?He; cbn [tbind tmap];
-    try (exists e; split; [reflexivity|exact Hm]).
-  - (* mayberef *) eexists. split; [reflexivity|]. apply shared_looked_through. exact Hm.
-  - (* rcref *) eexists. split; [reflexivity|]. apply shared_looked_through. exact Hm.
+    try (exists e; split; [reflexivity|exact Hm]);
+    (* mayberef, rcref: whether or not Resolve::get wraps the error (generated constant) *)
+    try (eexists; split; [reflexivity|]; apply shared_looked_through; exact Hm).
   - (* struct *) cbn [resolving] in Ht. destruct (get_struct SC i0); [|discriminate]. cbn [tbind]. rewrite ?He. cbn [tbind].
     exists e. split; [reflexivity|exact Hm].
+  - (* name enum *) cbn [resolving] in Ht. apply andb_true_iff in Ht. destruct Ht as [Hr Hg]. rewrite Hr.
+    destruct (get_nenum SC i0); [|discriminate]. rewrite ?He. cbn [tbind]. exists e. split; [reflexivity|exact Hm].
+  - (* integer enum *) cbn [resolving] in Ht. apply andb_true_iff in Ht. destruct Ht as [Hr Hg]. rewrite Hr.
+    destruct (get_ienum SC i0); [|discriminate]. rewrite ?He. cbn [tbind]. exists e. split; [reflexivity|exact Hm].
 Qed.
 
 (* Option<T>::from_primitive on a dangling reference: None, in strict and in tolerant mode *)
@@ -67,6 +74,51 @@ Theorem option_dangling f chain t i g : resolving t = true -> dangling E i -> ch
 Proof.
   intros Ht Hd Hc. destruct (holder_dangling f chain t i g Ht Hd Hc) as [e [He Hm]].
   cbn [read] in He |- *. rewrite He. rewrite (missing_opt_none _ Hm). reflexivity.
+Qed.
+
+(** * array elements (object/mod.rs: impl Object for Vec<T>, after fix C18-b) *)
+Lemma vec_elements_null : vec_missing_element_null = true.
+Proof. reflexivity. Qed.
+
+Lemma read_elems_same r x y pre post : read_elem r x = read_elem r y ->
+  read_elems r (pre ++ x :: post) = read_elems r (pre ++ y :: post).
+Proof. intros Hxy. induction pre as [|a pre IH]; cbn [app read_elems]; [rewrite Hxy; reflexivity|rewrite IH; reflexivity]. Qed.
+
+Lemma read_elems_skip r x pre post : read_elem r x = TOk [] ->
+  read_elems r (pre ++ x :: post) = read_elems r (pre ++ post).
+Proof.
+  intros Hx. induction pre as [|a pre IH]; cbn [app read_elems].
+  - rewrite Hx. cbn [tbind]. destruct (read_elems r post); reflexivity.
+  - rewrite IH. reflexivity.
+Qed.
+
+(* the element reader on a dangling reference *)
+Lemma elem_dangling f chain t i g : resolving t = true -> dangling E i -> chain_has i g chain = false ->
+  read_elem (rd (S f) chain t) (PRef i g) =
+  match rd (S f) chain t PNull with TOk v => TOk [v] | TErr _ => TOk [] | TPanic s => TPanic s | TFuel => TFuel end.
+Proof.
+  intros Ht Hd Hc. destruct (holder_dangling f chain t i g Ht Hd Hc) as [e [He Hm]].
+  unfold read_elem. rewrite He, vec_elements_null, Hm. reflexivity.
+Qed.
+
+Lemma read_vec_arr f chain t l : rd (S f) chain (TVec t) (PArr l) = tmap VVec (read_elems (rd f chain t) l).
+Proof. reflexivity. Qed.
+
+(* a dangling element of an array whose element type does not read Null is left out … *)
+Theorem element_dangling_skipped f chain t i g pre post e0 : resolving t = true -> dangling E i -> chain_has i g chain = false ->
+  rd (S f) chain t PNull = TErr e0 ->
+  rd (S (S f)) chain (TVec t) (PArr (pre ++ PRef i g :: post)) = rd (S (S f)) chain (TVec t) (PArr (pre ++ post)).
+Proof.
+  intros Ht Hd Hc Hn. rewrite !read_vec_arr. f_equal. apply read_elems_skip. rewrite (elem_dangling f chain t i g Ht Hd Hc), Hn. reflexivity.
+Qed.
+
+(* … and is the null object where the element type reads Null *)
+Theorem element_dangling_null f chain t i g pre post v0 : resolving t = true -> dangling E i -> chain_has i g chain = false ->
+  rd (S f) chain t PNull = TOk v0 ->
+  rd (S (S f)) chain (TVec t) (PArr (pre ++ PRef i g :: post)) = rd (S (S f)) chain (TVec t) (PArr (pre ++ PNull :: post)).
+Proof.
+  intros Ht Hd Hc Hn. rewrite !read_vec_arr. f_equal. apply read_elems_same. rewrite (elem_dangling f chain t i g Ht Hd Hc), Hn.
+  unfold read_elem. rewrite Hn. reflexivity.
 Qed.
 
 (* a deferring holder keeps the reference: reading succeeds, nothing is resolved *)
@@ -188,15 +240,16 @@ Proof.
   exists e. split; [|exact Hm]. apply (read_fields_required_err _ fd0 post d acc (r, g)); assumption.
 Qed.
 
-(** * where the full statement is false of the faithful model (open findings C18-b, C18-c) *)
+(** * the former open findings C18-b (array elements) and C18-c (enums, Matrix) are repaired: the statements above
+      cover them ([element_dangling_skipped], [element_dangling_null]; [resolving] includes the derived enums).
+      Non-vacuity on the generated schemas: *)
 Definition no_hands : hand := {| h_read := fun _ _ _ => TErr (EBase 99); h_write := fun _ _ => TErr (EBase 99) |}.
 
-(* C18-c: a derived enum does not follow references: Option<enum> over a dangling reference is an error in strict mode *)
-Lemma enum_holder_refuted : exists E i, dangling E i /\
-  read gen_schemas no_hands false E 8 [] (TOption (TNameEnum 0)) (PRef i 0) <> TOk VNone.
-Proof. exists [XFree], 5. split; [left; reflexivity|]. vm_compute. discriminate. Qed.
+Example enum_holder_example :
+  read gen_schemas no_hands false [XFree] 8 [] (TOption (TNameEnum 0)) (PRef 5 0) = TOk VNone.
+Proof. vm_compute. reflexivity. Qed.
 
-(* C18-b: a dangling element of a non-optional array is an error of the whole array (both option sets) *)
-Lemma container_element_refuted : exists E i, dangling E i /\ forall allow v,
-  read gen_schemas no_hands allow E 8 [] (TVec TI32) (PArr [PInt 1; PRef i 0]) <> TOk v.
-Proof. exists [XFree], 5. split; [left; reflexivity|]. intros [|] v; vm_compute; discriminate. Qed.
+Example container_element_example :
+  read gen_schemas no_hands false [XFree] 8 [] (TVec TI32) (PArr [PInt 1; PRef 5 0; PInt 2]) = TOk (VVec [VInt 1; VInt 2])
+  /\ read gen_schemas no_hands false [XFree] 8 [] (TVec (TOption TI32)) (PArr [PInt 1; PRef 5 0]) = TOk (VVec [VSome (VInt 1); VNone]).
+Proof. vm_compute. split; reflexivity. Qed.
